@@ -145,6 +145,9 @@ def jobs(tier, seed=0):
     for cc in ("LSO", "MNG"):
         res.append(dict(cc=cc, preset="base_harsh_72m", options=dict(copy.deepcopy(P["net_baseline"]), NMONTHS=72, **harsh)))
     res.append(dict(cc="MNG", preset="nw_long_delayed_shutoff", options=dict(copy.deepcopy(P["net_nuclear_winter"]), shutoff="long_delayed_shutoff")))
+    # a short horizon that ends while crops are still depressed, with demand alive in the last month
+    for cc in ("USA", "DNK"):
+        res.append(dict(cc=cc, preset="nw_48m", options=copy.deepcopy(V["nw_48m"])))
     # feed and biofuel demand overridden to nothing
     res.append(dict(cc="ARG", preset="nw_zero_demand", options=copy.deepcopy(V["nw_zero_demand"])))
     # a run whose title contains a dot (the saved tables are named after the title)
